@@ -640,6 +640,20 @@ func extractC14(c *ctxT) {
 		}
 		stmts := lit.Body.List
 		for i, st := range stmts {
+			// a return WITHOUT error anywhere in front of the callback's last statement ends the checks of this proposal early
+			// (whatever follows is skipped for it): emitted as `early-exit`, a statement the model does not know
+			if i < len(stmts)-1 {
+				early := false
+				ast.Inspect(st, func(n ast.Node) bool {
+					if rs, ok := n.(*ast.ReturnStmt); ok && len(rs.Results) == 2 && c.src(rs.Results[1]) == "nil" {
+						early = true
+					}
+					return true
+				})
+				if early {
+					out = append(out, "early-exit")
+				}
+			}
 			switch x := st.(type) {
 			case *ast.IfStmt:
 				// if A.Equals(sdk.AccAddress(proposer)) { return false, err }
